@@ -5,8 +5,8 @@
 #include <stdint.h>
 #include <string.h>
 
-enum { GV_NOISE = 0, GV_FLAT, GV_GRAD, GV_EXTREME, GV_EDGES, GV_SCREEN, GV_MOTION, GV_LOPSIDED, GV_PAN, GV_FASTPAN, GV_DESKTOP, GV_NKINDS };
-static const char *gv_names[] = {"noise", "flat", "grad", "extreme", "edges", "screen", "motion", "lopsided", "pan", "fastpan", "desktop"};
+enum { GV_NOISE = 0, GV_FLAT, GV_GRAD, GV_EXTREME, GV_EDGES, GV_SCREEN, GV_MOTION, GV_LOPSIDED, GV_PAN, GV_FASTPAN, GV_DESKTOP, GV_PALSWEEP, GV_NKINDS };
+static const char *gv_names[] = {"noise", "flat", "grad", "extreme", "edges", "screen", "motion", "lopsided", "pan", "fastpan", "desktop", "palsweep"};
 
 static inline int gv_kind(const char *s) {
     for (int i = 0; i < GV_NKINDS; i++)
@@ -139,6 +139,18 @@ static inline uint16_t gv_sample(int kind, uint32_t seed, int bits, int k, int p
             else v8 = (bg + fg) / 2 + (int)((r >> 8) % 5u) - 2;
         }
         v = v8 * (1 << (bits - 8));
+        break;
+    }
+    case GV_PALSWEEP: { /* screen content of 16x16 three-level "text" cells (renewed every 3 pictures) whose levels sweep the
+                         * sample range: low, a middle level L and a brighter level; a third of the cells put L at a
+                         * power-of-two distance below the maximum (where the width of the delta-coded palette colours
+                         * changes), the others anywhere in the upper half.  Chroma: two-level cells the same way */
+        uint32_t cell = gv_hash(seed, 911u + (uint32_t)p, ((uint32_t)x >> (p ? 3 : 4)) + 64u * (uint32_t)(k / 3), (uint32_t)y >> (p ? 3 : 4));
+        uint32_t r    = gv_hash(seed ^ 0x1234567u, cell, (uint32_t)x, (uint32_t)y) % 10u;
+        int      low  = (int)(cell % (uint32_t)(maxv / 4 + 1));
+        int      mid  = (cell >> 8) % 3u == 0 ? maxv - (1 << ((cell >> 10) % (uint32_t)bits)) : maxv / 2 + (int)((cell >> 10) % (uint32_t)(maxv / 2));
+        int      top  = mid + 1 + (int)((cell >> 20) % (uint32_t)(maxv - mid));
+        v             = r < 5u ? low : (r < 8u ? mid : top);
         break;
     }
     default: { /* GV_MOTION: textured background translating + noise, exercises inter tools */
